@@ -71,6 +71,27 @@ def judge(rep, W, xs, c, n, m, where, label, rule='R-LAGRANGE', rows=None):
             for v in range(m):
                 want = lagrange_weight(xs, c, v, k)
                 got = W[k, v] if rule == 'R-LAGRANGE' else W[v]
+                if isinstance(got, ndarr.Choice):
+                    # the weight depends on a test on the data (a threshold, say): every outcome that some node set realises
+                    # must be the exact weight.  Outcomes are realised by concrete node sets x_j = (j + 1/3) * s at several
+                    # scales s (a witness each); an outcome no witness reaches stays undecided
+                    hit = None
+                    for sval in (Fr(1), Fr(1, 10 ** 5), Fr(10 ** 5), Fr(1, 10 ** 10), Fr(10 ** 10)):
+                        env = {'EPS': Fr(1, 2 ** 52), 'c': Fr(1, 7) * sval}
+                        for j, xj in enumerate(xs):
+                            for a_ in (xj.atoms() if hasattr(xj, 'atoms') else ()):
+                                env.setdefault(a_, (Fr(j) + Fr(1, 3)) * sval)
+                        r = ndarr.resolve_at(got, env)
+                        if r is None or isinstance(r[0], ndarr.Choice):
+                            continue
+                        gv, wv = ndarr.evaluate_concrete(r[0], env), ndarr.evaluate_concrete(want, env)
+                        if gv is not None and wv is not None and repr(gv) != repr(wv):
+                            hit = (sval, r[1][:2], gv, wv)
+                            break
+                    if hit is None:
+                        raise AnalysisError('weight [%d, %d] depends on a test on the data that could not be resolved: %s' % (k, v, repr(got)[:160]))
+                    problems.append('row %d node %d: %s for nodes of scale s = %s (tests: %s), exact %s' % (k, v, repr(hit[2])[:40], hit[0], hit[1], repr(hit[3])[:40]))
+                    continue
                 if not alg_equal(got, want):
                     problems.append('row %d node %d: %s (exact: %s)' % (k, v, repr(got)[:60], repr(want)[:60]))
     return problems
